@@ -588,6 +588,21 @@ func (e *env) dispatch(cmd string, a []string, binding bool) outcome {
 		}
 		return e.tensorCall(func() (T, error) { return t.Transpose() })
 
+	case "wrap":
+		// a tensor.Tensor that is not the library's own implementation: a caller's struct embedding a library tensor
+		// (every method is the embedded tensor's; as an ARGUMENT the library must reject it with an error)
+		if n != 1 {
+			return oBad
+		}
+		t, st := e.parseRecv(a[0])
+		if st != "" {
+			return fail(st)
+		}
+		if _, already := t.(foreignTensor); already {
+			return fail("skip")
+		}
+		return e.tensorCall(func() (T, error) { return foreignTensor{t}, nil })
+
 	/* ----- scalar / query methods ----- */
 
 	case "nelems":
@@ -775,6 +790,9 @@ func (e *env) dispatch(cmd string, a []string, binding bool) outcome {
 			if st != "" {
 				return fail(st)
 			}
+			if _, frn := t.(foreignTensor); frn {
+				return fail("skip") // not part of the protocol
+			}
 			in.SeedFunc = func() tensor.Tensor { return t }
 		}
 		return outcome{st: "ok", bind: &val{k: kLayer, layer: in}}
@@ -903,6 +921,9 @@ func (e *env) dispatch(cmd string, a []string, binding bool) outcome {
 		t, st := e.parseTensor(a[1])
 		if st != "" {
 			return fail(st)
+		}
+		if _, frn := t.(foreignTensor); frn {
+			return fail("skip") // not part of the protocol: a caller's own implementation stored as a layer parameter
 		}
 		return fail(e.guard(func() error { *v.ptr = t; return nil }))
 
@@ -1070,8 +1091,11 @@ func isBindCmd(cmd string) bool {
 	return a || b || c || d || f
 }
 
+// foreignTensor: see the `wrap` command
+type foreignTensor struct{ tensor.Tensor }
+
 var bindCmds = map[string]bool{
-	"ints": true, "ranges": true, "tensors": true, "data": true,
+	"wrap": true, "ints": true, "ranges": true, "tensors": true, "data": true,
 	"full": true, "zeros": true, "ones": true, "eye": true, "randu": true, "randn": true,
 	"tensorof": true, "concat": true, "slice": true, "patch": true, "transpose": true,
 	"shape": true, "grad": true, "init": true, "initcall": true, "fc": true, "input": true,
